@@ -150,7 +150,7 @@ REGISTRY = {
     },
     "C14": {
         "rules": [
-            bp.rule_bp_exponent, bp.rule_accumulator_units, bp.rule_bp_normalizers, bp.rule_factor_orientation, bp.rule_damping_order, bp.rule_dual_refresh, bp.rule_bp_cache_invalidate,
+            bp.rule_bp_exponent, bp.rule_accumulator_units, bp.rule_bp_normalizers, bp.rule_factor_orientation, bp.rule_damping_order, bp.rule_dual_refresh, bp.rule_bp_cache_invalidate, bp.rule_pair_normaliser_phase, bp.rule_excluded_tensors_accounted, bp.rule_gloop_singletons,
             P(registries.rule_mode_total, specs=[
                 ("quimb.tensor.belief_propagation.bp_common", "BeliefPropagationCommon.normalize.setter", "normalize"),
                 ("quimb.tensor.belief_propagation.bp_common", "BeliefPropagationCommon.distance.setter", "distance"),
